@@ -1,0 +1,137 @@
+// Verification seam (cargo feature `verif_hooks`): the plain-TCP read half of a session, either the real
+// `tokio::net::tcp::OwnedReadHalf` or a stand-in over an arbitrary byte stream that reproduces tokio's
+// readiness semantics, so that the `Regular` arm of the frame reader can be driven by the external harness.
+//
+// The readiness model is tokio's documented one: `readable()` waits until the readiness flag is set and "can
+// return false positives"; the flag is set when data arrives and is only cleared by a read that finds the
+// socket empty (`try_read` -> `WouldBlock`, `poll_read` -> `Pending`). A read that drains the socket exactly
+// leaves the flag set.
+
+#![allow(missing_docs, missing_debug_implementations, unreachable_pub, dead_code)]
+
+use std::pin::Pin;
+use std::task::{Context, Poll};
+
+use tokio::io::{AsyncRead, ReadBuf};
+
+pub struct SimRead {
+    inner: crate::net::BoxRead,
+    buffered: Vec<u8>,
+    eof: bool,
+    ready: bool,
+}
+
+impl SimRead {
+    fn fill(&mut self, cx: &mut Context<'_>) -> Poll<std::io::Result<()>> {
+        if !self.buffered.is_empty() || self.eof {
+            return Poll::Ready(Ok(()));
+        }
+        let mut tmp = [0u8; 8 * 1024];
+        let mut rb = ReadBuf::new(&mut tmp);
+        match Pin::new(&mut self.inner).poll_read(cx, &mut rb) {
+            Poll::Ready(Ok(())) => {
+                if rb.filled().is_empty() {
+                    self.eof = true;
+                } else {
+                    self.buffered.extend_from_slice(rb.filled());
+                }
+                // data (or the end of the stream) arrived: the socket becomes ready
+                self.ready = true;
+                Poll::Ready(Ok(()))
+            }
+            Poll::Ready(Err(e)) => Poll::Ready(Err(e)),
+            Poll::Pending => Poll::Pending,
+        }
+    }
+    fn take(&mut self, buf: &mut [u8]) -> usize {
+        let n = buf.len().min(self.buffered.len());
+        buf[..n].copy_from_slice(&self.buffered[..n]);
+        self.buffered.drain(..n);
+        n
+    }
+}
+
+pub enum OwnedReadHalf {
+    Real(tokio::net::tcp::OwnedReadHalf),
+    Sim(std::sync::Mutex<SimRead>),
+}
+
+impl From<tokio::net::tcp::OwnedReadHalf> for OwnedReadHalf {
+    fn from(r: tokio::net::tcp::OwnedReadHalf) -> Self {
+        Self::Real(r)
+    }
+}
+
+impl OwnedReadHalf {
+    pub fn sim(inner: crate::net::BoxRead) -> Self {
+        Self::Sim(std::sync::Mutex::new(SimRead {
+            inner,
+            buffered: Vec::new(),
+            eof: false,
+            ready: false,
+        }))
+    }
+    pub async fn readable(&self) -> std::io::Result<()> {
+        match self {
+            Self::Real(r) => r.readable().await,
+            Self::Sim(m) => {
+                std::future::poll_fn(|cx| {
+                    let mut s = m.lock().unwrap();
+                    if s.ready {
+                        return Poll::Ready(Ok(()));
+                    }
+                    s.fill(cx)
+                })
+                .await
+            }
+        }
+    }
+    pub fn try_read(&self, buf: &mut [u8]) -> std::io::Result<usize> {
+        match self {
+            Self::Real(r) => r.try_read(buf),
+            Self::Sim(m) => {
+                let mut s = m.lock().unwrap();
+                if s.buffered.is_empty() && !s.eof {
+                    // a non-blocking look at the stream
+                    let mut cx = Context::from_waker(std::task::Waker::noop());
+                    if let Poll::Ready(Err(e)) = s.fill(&mut cx) {
+                        return Err(e);
+                    }
+                }
+                if s.buffered.is_empty() && !s.eof {
+                    s.ready = false;
+                    return Err(std::io::ErrorKind::WouldBlock.into());
+                }
+                Ok(s.take(buf))
+            }
+        }
+    }
+}
+
+impl AsyncRead for OwnedReadHalf {
+    fn poll_read(
+        self: Pin<&mut Self>,
+        cx: &mut Context<'_>,
+        buf: &mut ReadBuf<'_>,
+    ) -> Poll<std::io::Result<()>> {
+        match self.get_mut() {
+            Self::Real(r) => Pin::new(r).poll_read(cx, buf),
+            Self::Sim(m) => {
+                let s = m.get_mut().unwrap();
+                match s.fill(cx) {
+                    Poll::Ready(Ok(())) => {
+                        let n = buf.remaining().min(s.buffered.len());
+                        buf.put_slice(&s.buffered[..n]);
+                        s.buffered.drain(..n);
+                        Poll::Ready(Ok(()))
+                    }
+                    Poll::Ready(Err(e)) => Poll::Ready(Err(e)),
+                    Poll::Pending => {
+                        s.ready = false;
+                        Poll::Pending
+                    }
+                }
+            }
+        }
+    }
+}
